@@ -245,7 +245,7 @@ _CS_UNIT = {"kind": "verus", "unit": "cs"}
 PROPS["C06"]["units"] = PROPS["C06"]["units"] + [_CS_UNIT]
 PROPS["C06"]["text"] += " Comma-separated CS<R> lists (src/serde_cs.rs): proved in Verus unit `cs` against a stand-in for serde_cs: Ok exactly when the payload is a String that CS::from_str accepts, otherwise exactly one report at the given location (Unexpected for an unparsable list, kind error listing String otherwise); the *contents* of the parsed list are serde_cs's."
 PROPS["C01"]["units"] = PROPS["C01"]["units"] + [_CS_UNIT]
-_DERIVE_VERUS = {"kind": "verus", "unit": "derive", "ce_harnesses": {"for One<": ["derive_plain_2"], "for Plain<": ["derive_plain_2"], "for Camel<": ["derive_camel_2"], "for Lower<": ["derive_lower_2"], "for Deny4<": ["derive_deny4_2"]}}
+_DERIVE_VERUS = {"kind": "verus", "unit": "derive", "ce_harnesses": {"for Tagged<": ["derive_tagged_first", "derive_tagged_last", "derive_tagged_absent"], "for Units ": ["derive_units"], "for One<": ["derive_plain_2"], "for Plain<": ["derive_plain_2"], "for Camel<": ["derive_camel_2"], "for Lower<": ["derive_lower_2"], "for Deny4<": ["derive_deny4_2"]}}
 _DERIVE_VERUS_TEXT = " UNBOUNDED part (Verus unit `derive`): the real expansion of #[derive(Deserr)] (obtained on every run from the repository's own proc-macro with `rustc -Zunpretty=expanded`) for five catalogue structs -- no attributes; two required fields; rename_all = camelCase + rename + default + deny_unknown_fields; rename_all = lowercase + skip declared between other fields + default; deny_unknown_fields + skip + rename + default -- with generic field types is verified against contracts generated from the declarative description (tools/derive_unit.py computes effective keys, accepted list and missing/default/skip rules itself): for every payload, every member order, duplicate keys, every answer sequence: Ok => no fault and every non-skipped field filled from the last entry under exactly its effective key; the trace is the per-entry contributions in enumeration order (unknown keys reported exactly under deny_unknown_fields with the exact accepted list) followed by one MissingField per absent required field in declaration order; defaults never missing; FieldState::unwrap never reached without a value."
 for _p in ("C07", "C08", "C09"):
     PROPS[_p]["units"] = [_DERIVE_VERUS] + PROPS[_p]["units"]
@@ -257,7 +257,10 @@ for _p in ("C01", "C02", "C03", "C04", "C12"):
     PROPS[_p]["units"] = PROPS[_p]["units"] + [_DERIVE_VERUS]
     PROPS[_p]["text"] += " Derived structs: the real expansion for five catalogue structs is proved in Verus unit `derive` against the same postconditions (unbounded payloads)."
 PROPS["C10"]["units"] = [_DERIVE_VERUS] + PROPS["C10"]["units"]
-PROPS["C10"]["text"] += " UNBOUNDED part (Verus unit `derive`): the real expansion for two unit-only enums (rename_all = lowercase with a renamed variant; rename_all = camelCase on PascalCase identifiers) is proved for every payload: the variant chosen is exactly the one whose effective name equals the string, any other string yields one UnknownValue report with all effective names in declaration order at the enum's location, any non-string one kind error listing String. Tagged enums: bounded (Kani + exhaustive native execution)."
+PROPS["C10"]["text"] += " UNBOUNDED part (Verus unit `derive`): the real expansion for two unit-only enums (rename_all = lowercase with a renamed variant; rename_all = camelCase on PascalCase identifiers) is proved for every payload: the variant chosen is exactly the one whose effective name equals the string, any other string yields one UnknownValue report with all effective names in declaration order at the enum's location, any non-string one kind error listing String. Internally tagged enum (tag `type`, container rename_all = camelCase, a renamed variant, a variant-level rename_all = lowercase, a defaulted field, two variants sharing a field name with different types): the real expansion is proved for every payload and every position of the tag: an absent tag is MissingField(tag) at the enum, a non-string tag a kind error at the tag's own location, a string naming no variant an error at the enum, otherwise exactly the variant whose effective name equals the string is built from the remaining entries by that variant's field rules alone (relative to the value-source contract of Map::remove: it takes out the first entry under the key and only it)."
+PROPS["C10"]["level"] = "proof"
+PROPS["C10"]["technique"] = "Verus on the real derive expansion of two unit enums and one internally tagged enum (unbounded payloads; contracts generated from the declarative description) + " + PROPS["C10"]["technique"]
+PROPS["C10"]["level_note"] = "Proof for the three enum programs of catalogue/structs.json; the program quantifier is sampled; the Kani / native harnesses on a second tagged enum remain as bounded cross-checks. " + PROPS["C10"]["level_note"]
 PROPS["C15"]["units"] = [_DERIVE_VERUS] + PROPS["C15"]["units"]
 PROPS["C15"]["text"] += " Verus unit `derive` contributes the obligation that every entry of the object is examined (the key loop runs to the end whatever the order) for the five catalogue structs."
 _FIELDSTATE_UNIT = {"kind": "verus", "unit": "fieldstate"}
